@@ -4,8 +4,6 @@ import (
 	"bytes"
 	"crypto/cipher"
 	"fmt"
-	"runtime"
-	"unsafe"
 
 	gcipher "github.com/emmansun/gmsm/cipher"
 	"github.com/emmansun/gmsm/sm4"
@@ -191,17 +189,20 @@ func in(g *mon.Guard, b []byte, hi bool) []byte {
 type dstMode int
 
 const (
-	dNil     dstMode = iota // dst = nil
-	dExact                  // prefix, capacity exactly what the call appends
-	dSpare                  // prefix, capacity larger than needed: the spare bytes must stay untouched
-	dInPlace                // prefix, input lives at dst[len(prefix):] of the same buffer (exact overlap)
-	dShort                  // prefix, capacity too small: the call must allocate and leave the buffer alone
+	dNil          dstMode = iota // dst = nil
+	dExact                       // prefix, capacity exactly what the call appends
+	dSpare                       // prefix, capacity larger than needed: the spare bytes must stay untouched
+	dInPlace                     // prefix, input lives at dst[len(prefix):] of the same buffer (exact overlap), spare capacity behind
+	dShort                       // prefix, capacity too small: the call must allocate and leave the buffer alone
+	dInPlaceTight                // as dInPlace, but the buffer ends with the input / the result (no spare byte)
 	nDstModes
 )
 
 func (m dstMode) String() string {
-	return [...]string{"nil", "exact", "spare", "inplace", "short"}[m]
+	return [...]string{"nil", "exact", "spare", "inplace", "short", "inplace-tight"}[m]
 }
+
+func (m dstMode) inPlace() bool { return m == dInPlace || m == dInPlaceTight }
 
 // placed is a destination prepared in a guard buffer.
 type placed struct {
@@ -246,9 +247,7 @@ func place(g *mon.Guard, r *mon.Rand, mode dstMode, hi bool, need int, input []b
 			room = r.Intn(need)
 		}
 	case dInPlace:
-		if r.Bool() {
-			room += r.Range(1, 48)
-		}
+		room += r.Range(1, 48)
 	}
 	if hi {
 		p.buf = g.Hi(pl + room)
@@ -264,7 +263,7 @@ func place(g *mon.Guard, r *mon.Rand, mode dstMode, hi bool, need int, input []b
 	}
 	copy(p.buf, p.prefix)
 	p.dst = p.buf[:pl]
-	if p.mode == dInPlace {
+	if p.mode.inPlace() {
 		copy(p.buf[pl:], input)
 		p.input = p.buf[pl : pl+len(input)]
 	}
@@ -274,9 +273,8 @@ func place(g *mon.Guard, r *mon.Rand, mode dstMode, hi bool, need int, input []b
 // checkAfter verifies what the call may not have touched: the prefix (in the
 // result and in the buffer), every byte of the buffer beyond the appended region
 // (all of it beyond the prefix when the capacity was too small) and the fence
-// behind the capacity. over > 0: the open finding shortTagID explains zero bytes
-// stored into the first over bytes after the appended region (see shortTagOverrun).
-func (p *placed) checkAfter(c *mon.Case, what string, ret []byte, ok bool, over int) {
+// behind the capacity.
+func (p *placed) checkAfter(c *mon.Case, what string, ret []byte, ok bool) {
 	if p.mode == dNil {
 		return
 	}
@@ -287,107 +285,26 @@ func (p *placed) checkAfter(c *mon.Case, what string, ret []byte, ok bool, over 
 	if ok && (len(ret) < pl || !bytes.Equal(ret[:pl], p.prefix)) {
 		c.Fail("mismatch", "%s: result does not start with the %d bytes that were in dst (only appending is allowed)", what, pl)
 	}
-	end := pl + p.need // end of the appended region
-	from := end
+	from := pl + p.need // end of the appended region
 	if p.mode == dShort {
 		from = pl // the buffer cannot hold the result: nothing of it may be written
 	}
-	if p.mode == dInPlace && len(p.input) > p.need {
+	if p.mode.inPlace() && len(p.input) > p.need {
 		// Open in place: the tag bytes of the input follow the output region; they are input, not spare
 		from = pl + len(p.input)
 	}
-	at := func(i int) byte {
-		if i < len(p.buf) {
-			return p.buf[i]
-		}
-		return p.fence[i-len(p.buf)]
-	}
-	known := 0
 	for i := from; i < len(p.buf)+len(p.fence); i++ {
-		b := at(i)
-		if b == marker {
-			continue
+		b, where := byte(0), "inside the spare capacity of dst"
+		if i < len(p.buf) {
+			b = p.buf[i]
+		} else {
+			b, where = p.fence[i-len(p.buf)], "BEYOND the capacity of dst"
 		}
-		if p.mode != dShort && i >= end && i < end+over && b == 0 {
-			known++
-			continue
-		}
-		where := "inside the spare capacity of dst"
-		if i >= len(p.buf) {
-			where = "BEYOND the capacity of dst"
-		}
-		c.Fail("oob", "%s: wrote at dst offset %d (value %#x) %s, outside the %d appended bytes after the %d-byte prefix (dst mode %v, cap %d)", what, i, b, where, p.need, pl, p.mode, cap(p.dst))
-		return
-	}
-	if known > 0 {
-		where := "inside the spare capacity of dst"
-		if end+known > len(p.buf) {
-			where = "BEYOND the capacity of dst"
-		}
-		c.Known(shortTagID, "oob", "%s: stored %d zero byte(s) right after the %d appended bytes, %s (dst mode %v, prefix %d, cap %d): the assembly writes the final partial block as a whole 16-byte block", what, known, p.need, where, p.mode, pl, cap(p.dst))
-	}
-}
-
-// ---------------------------------------------------------------------------
-// open finding: fused SM4-GCM with tags shorter than 16 bytes
-
-// shortTagID: internal/sm4/gcm_amd64.s handles a final partial block of r bytes by
-// storing (gcmSm4Enc: "I assume there is always space, due to TAG in the end of the
-// CT") or loading (gcmSm4Dec: "I assume there is TAG attached to the ctx") a whole
-// 16-byte block at its offset. That is only inside ciphertext||tag when r + tagSize
-// >= 16; with cipher.NewGCMWithTagSize(12..14) and r <= 15 - tagSize, Seal stores
-// 16-r-tagSize zero bytes behind the tag and Open reads as many bytes behind it.
-const shortTagID = "gcm-short-tag-tail-overrun"
-
-// shortTagOverrun is the predicate of the finding: the number of bytes behind
-// ciphertext||tag that the fused implementation touches for a message of n bytes
-// (0: the finding does not apply).
-func shortTagOverrun(a cipher.AEAD, ts, n int) int {
-	if n < 0 || fmt.Sprintf("%T", a) != "*sm4.gcmAsm" {
-		return 0
-	}
-	r := n % 16
-	if r == 0 || r+ts >= 16 {
-		return 0
-	}
-	return 16 - r - ts
-}
-
-func endOf(b []byte) uintptr {
-	if cap(b) == 0 {
-		return 0
-	}
-	return uintptr(unsafe.Pointer(unsafe.SliceData(b))) + uintptr(len(b))
-}
-
-// callLib is c.Call with one addition: a memory fault whose address lies in the
-// over bytes that follow one of ends (buffers that stop at a guard page) is the
-// model of the open finding shortTagID and is routed to c.Known.
-func callLib(c *mon.Case, what string, f func(), over int, ends ...[]byte) bool {
-	c.Event("calls", 1)
-	p := mon.Try(f)
-	if p == nil {
-		return true
-	}
-	kind := "panic"
-	if e, ok := p.Value.(runtime.Error); ok {
-		if fa, isAddr := e.(interface{ Addr() uintptr }); isAddr {
-			kind = "oob"
-			for _, b := range ends {
-				if e := endOf(b); over > 0 && e != 0 && fa.Addr() >= e && fa.Addr() < e+uintptr(over) {
-					c.Known(shortTagID, "oob", "%s: memory fault %d byte(s) behind the end of the buffer that holds ciphertext||tag (it ends at a guard page): the assembly accesses the final partial block as a whole 16-byte block", what, fa.Addr()-e+1)
-					return false
-				}
-			}
+		if b != marker {
+			c.Fail("oob", "%s: wrote at dst offset %d (value %#x) %s, outside the %d appended bytes after the %d-byte prefix (dst mode %v, cap %d)", what, i, b, where, p.need, pl, p.mode, cap(p.dst))
+			return
 		}
 	}
-	st := p.Stack
-	if len(st) > 3000 {
-		st = st[:3000]
-	}
-	c.Detail("stack", st)
-	c.Fail(kind, "%s: panic: %v", what, p.Value)
-	return false
 }
 
 // unchanged checks that an input buffer still holds what was passed.
@@ -414,12 +331,11 @@ func sealOpen(c *mon.Case, ar *arena, s spec, a cipher.AEAD, nonce, pt, aad, wan
 	nn, aa := in(g.nonce, nonce, hiIn), in(g.aad, aad, hiIn)
 	p := place(g.dst, c.R, ms, hiOut, len(pt)+s.ts, pt)
 	src := p.input
-	if p.mode != dInPlace {
+	if !p.mode.inPlace() {
 		src = in(g.pt, pt, hiIn)
 	}
-	over := shortTagOverrun(a, s.ts, len(pt))
 	var ret []byte
-	if callLib(c, what, func() { ret = a.Seal(p.dst, nn, src, aa) }, over, p.buf) {
+	if c.Call(what, func() { ret = a.Seal(p.dst, nn, src, aa) }) {
 		c.CheckGuards(what, g.nonce, g.aad, g.dst, g.pt)
 		c.Event("seal_vs_ref", 1)
 		c.Event("seal_dst_"+p.mode.String(), 1)
@@ -428,10 +344,10 @@ func sealOpen(c *mon.Case, ar *arena, s spec, a cipher.AEAD, nonce, pt, aad, wan
 		} else {
 			c.Fail("mismatch", "%s: result shorter than the prefix", what)
 		}
-		p.checkAfter(c, what, ret, true, over)
+		p.checkAfter(c, what, ret, true)
 		unchanged(c, what, "nonce", nn, nonce)
 		unchanged(c, what, "additional data", aa, aad)
-		if p.mode != dInPlace {
+		if !p.mode.inPlace() {
 			unchanged(c, what, "plaintext", src, pt)
 		}
 	}
@@ -440,12 +356,12 @@ func sealOpen(c *mon.Case, ar *arena, s spec, a cipher.AEAD, nonce, pt, aad, wan
 	nn, aa = in(g.nonce, nonce, hiOut), in(g.aad, aad, hiOut)
 	q := place(g.out, c.R, mo, hiIn, len(pt), want)
 	ct := q.input
-	if q.mode != dInPlace {
+	if !q.mode.inPlace() {
 		ct = in(g.ct, want, hiOut)
 	}
 	var back []byte
 	var err error
-	if callLib(c, what, func() { back, err = a.Open(q.dst, nn, ct, aa) }, over, ct, q.buf) {
+	if c.Call(what, func() { back, err = a.Open(q.dst, nn, ct, aa) }) {
 		c.CheckGuards(what, g.nonce, g.aad, g.out, g.ct)
 		c.Event("open_roundtrip", 1)
 		c.Event("open_dst_"+q.mode.String(), 1)
@@ -456,10 +372,10 @@ func sealOpen(c *mon.Case, ar *arena, s spec, a cipher.AEAD, nonce, pt, aad, wan
 		} else {
 			c.Eq(what, back[len(q.prefix):], pt)
 		}
-		q.checkAfter(c, what, back, err == nil, 0)
+		q.checkAfter(c, what, back, err == nil)
 		unchanged(c, what, "nonce", nn, nonce)
 		unchanged(c, what, "additional data", aa, aad)
-		if q.mode != dInPlace {
+		if !q.mode.inPlace() {
 			unchanged(c, what, "ciphertext", ct, want)
 		}
 	}
@@ -482,12 +398,14 @@ var subs = [4]func(byte) byte{
 
 // tamperOne opens one altered (nonce, aad, sealed) triple and demands refusal:
 // error, nil result, an all-zero output region, nothing else touched.
-func tamperOne(c *mon.Case, g *bufs, s spec, a cipher.AEAD, what string, k int, nonce, sealed, aad, pt []byte) {
+func tamperOne(c *mon.Case, g *bufs, s spec, a cipher.AEAD, refAccepts func(nonce, sealed, aad []byte) bool, what string, k int, nonce, sealed, aad, pt []byte) {
 	hi := k&1 == 0
 	mode := dExact
 	switch {
 	case k%11 == 10:
 		mode = dNil
+	case k%10 == 9:
+		mode = dInPlaceTight
 	case k%5 == 4:
 		mode = dInPlace
 	case k%3 == 2:
@@ -500,19 +418,24 @@ func tamperOne(c *mon.Case, g *bufs, s spec, a cipher.AEAD, what string, k int, 
 	nn, aa := in(g.nonce, nonce, hi), in(g.aad, aad, !hi)
 	q := place(g.out, c.R, mode, hi, region, sealed)
 	ct := q.input
-	if q.mode != dInPlace {
+	if !q.mode.inPlace() {
 		ct = in(g.ct, sealed, hi)
 	}
 	var back []byte
 	var err error
 	c.Event("tamper_opens", 1)
-	if !callLib(c, what, func() { back, err = a.Open(q.dst, nn, ct, aa) }, shortTagOverrun(a, s.ts, len(sealed)-s.ts), ct, q.buf) {
+	if !c.Call(what, func() { back, err = a.Open(q.dst, nn, ct, aa) }) {
 		return
 	}
 	c.CheckGuards(what, g.out, g.ct)
 	if k%16 == 0 {
 		// the nonce and aad slices keep their size during a sweep, so a stray write next to them stays visible
 		c.CheckGuards(what, g.nonce, g.aad)
+	}
+	if err == nil && refAccepts(nonce, sealed, aad) {
+		// a genuine collision of the truncated tag (probability 2^-8t per attempt): the specification accepts it too
+		c.Event("tag_collisions_confirmed_by_reference", 1)
+		return
 	}
 	if err == nil {
 		c.Event("tamper_accepted", 1)
@@ -542,18 +465,18 @@ func tamperOne(c *mon.Case, g *bufs, s spec, a cipher.AEAD, what string, k int, 
 			switch {
 			case len(pt) >= region && region > 0 && bytes.Equal(out, pt[:region]):
 				c.Fail("accept", "%v failed Open left the PLAINTEXT in the output region dst[%d:%d] (%s)", s, pl, pl+region, what)
-			case q.mode != dInPlace && bytes.Equal(out, bytes.Repeat([]byte{marker}, region)):
+			case !q.mode.inPlace() && bytes.Equal(out, bytes.Repeat([]byte{marker}, region)):
 				c.Fail("mismatch", "%v failed Open left the output region dst[%d:%d] untouched instead of zeroing it (%s)", s, pl, pl+region, what)
 			default:
 				c.Detail("region", out)
 				c.Fail("accept", "%v failed Open left non-zero bytes in the output region dst[%d:%d] (%s)", s, pl, pl+region, what)
 			}
 		}
-		q.checkAfter(c, what, nil, false, 0)
+		q.checkAfter(c, what, nil, false)
 	}
 	unchanged(c, what, "nonce", nn, nonce)
 	unchanged(c, what, "additional data", aa, aad)
-	if q.mode != dInPlace {
+	if !q.mode.inPlace() {
 		unchanged(c, what, "ciphertext", ct, sealed)
 	}
 }
@@ -562,7 +485,7 @@ func tamperOne(c *mon.Case, g *bufs, s spec, a cipher.AEAD, what string, k int, 
 // mutants skipped) to sealed, nonce and aad, every truncation by 1..tag bytes and a
 // few length changes. stride > 1 samples positions of long fields (offset drawn
 // from the case PRNG).
-func tamperSweep(c *mon.Case, ar *arena, s spec, a cipher.AEAD, nonce, sealed, aad, pt []byte, stride int) {
+func tamperSweep(c *mon.Case, ar *arena, s spec, a cipher.AEAD, refAccepts func(nonce, sealed, aad []byte) bool, nonce, sealed, aad, pt []byte, stride int) {
 	g := ar.pick(max(len(sealed), len(aad)) + 200)
 	k := 0
 	fields := []struct {
@@ -586,7 +509,7 @@ func tamperSweep(c *mon.Case, ar *arena, s spec, a cipher.AEAD, nonce, sealed, a
 				args := [3][]byte{sealed, nonce, aad}
 				args[fi] = m
 				what := fmt.Sprintf("tamper %s[%d] %#02x->%#02x (sub %d)", f.name, pos, f.val[pos], nb, si)
-				tamperOne(c, g, s, a, what, k, args[1], args[0], args[2], pt)
+				tamperOne(c, g, s, a, refAccepts, what, k, args[1], args[0], args[2], pt)
 				c.Event("tamper_"+f.name, 1)
 				k++
 			}
@@ -594,25 +517,35 @@ func tamperSweep(c *mon.Case, ar *arena, s spec, a cipher.AEAD, nonce, sealed, a
 	}
 	c.CheckGuards("tamper sweep", g.nonce, g.aad)
 	for t := 1; t <= s.ts && t <= len(sealed); t++ {
-		tamperOne(c, g, s, a, fmt.Sprintf("truncate ct||tag by %d", t), k, nonce, sealed[:len(sealed)-t], aad, pt)
+		tamperOne(c, g, s, a, refAccepts, fmt.Sprintf("truncate ct||tag by %d", t), k, nonce, sealed[:len(sealed)-t], aad, pt)
 		c.Event("tamper_truncate", 1)
 		k++
 	}
 	// length changes that keep every byte: GHASH/CBC-MAC zero padding must not hide them
 	ext := append(append([]byte{}, sealed...), 0)
-	tamperOne(c, g, s, a, "ct||tag extended by a zero byte", k, nonce, ext, aad, pt)
+	tamperOne(c, g, s, a, refAccepts, "ct||tag extended by a zero byte", k, nonce, ext, aad, pt)
 	k++
-	tamperOne(c, g, s, a, "aad extended by a zero byte", k, nonce, sealed, append(append([]byte{}, aad...), 0), pt)
+	tamperOne(c, g, s, a, refAccepts, "aad extended by a zero byte", k, nonce, sealed, append(append([]byte{}, aad...), 0), pt)
 	k++
 	if len(aad) > 0 {
-		tamperOne(c, g, s, a, "aad shortened by its last byte", k, nonce, sealed, aad[:len(aad)-1], pt)
+		tamperOne(c, g, s, a, refAccepts, "aad shortened by its last byte", k, nonce, sealed, aad[:len(aad)-1], pt)
 		k++
 	}
 	if len(sealed) > s.ts && len(aad) < 600 {
 		// move the first ciphertext byte into the associated data
-		tamperOne(c, g, s, a, "boundary between aad and ciphertext moved", k, nonce, sealed[1:], append(append([]byte{}, aad...), sealed[0]), pt)
+		tamperOne(c, g, s, a, refAccepts, "boundary between aad and ciphertext moved", k, nonce, sealed[1:], append(append([]byte{}, aad...), sealed[0]), pt)
 		k++
 	}
 	c.Event("tamper_length_changes", 3)
 	c.CheckGuards("tamper sweep", g.nonce, g.aad, g.out, g.ct)
+	// the object that refused all of the above must still open the unaltered message
+	var back []byte
+	var err error
+	if c.Call("Open of the unaltered message after the sweep", func() { back, err = a.Open(nil, nonce, sealed, aad) }) {
+		if err != nil {
+			c.Fail("reject", "%v refused the unaltered message after the tamper sweep: %v", s, err)
+		} else {
+			c.Eq("Open after the sweep", back, pt)
+		}
+	}
 }
